@@ -16,7 +16,7 @@ from vf import core, pipe
 PROPERTY = 'C09'
 RULE = ('cases = one run of the ranking task (fresh process, real process pool) on a generated data set: data sets (pairwise / target-only, '
         'binding cap or not, MI-numba-randomized / max-value-coverage / MI-numba-3mr, 3-6 batches, cardinalities 2..2000) x pool size in '
-        '{1,2,3,8,16} (quick) / {1,2,3,4,6,8,12,16} (thorough) x per-task delay seeds x repetitions, plus an in-process synchronous reference. '
+        '{1,2,3,8,16} (quick) / {1,2,3,4,6,8,12,16} (thorough) x per-task delay seeds x repetitions, each run with its own PYTHONHASHSEED, plus an in-process synchronous reference. '
         'distinct = (data set, pool size, hash of the observed completion order); non-trivial = tasks of the run were executed by >= 2 '
         'worker processes with overlapping execution intervals.')
 REQUIRED = {'scores-identical-across-runs': 4, 'schedule-diversity': 1}
@@ -51,6 +51,9 @@ def plan(tier, seed):
                     continue
                 shards.append({'name': '%s/pool%d/delay%d' % (ds, p, d), 'fn': 'shard_run', 'args': {'ds': ds, 'pool': p, 'dseed': d, 'rep': 0}, 'timeout': 1200})
         shards.append({'name': '%s/pool3/delay0/rep1' % ds, 'fn': 'shard_run', 'args': {'ds': ds, 'pool': 3, 'dseed': 0, 'rep': 1}, 'timeout': 1200})
+    # every run gets its own string-hash seed: fresh processes of a real deployment do not share one
+    for i, sp in enumerate(shards):
+        sp.setdefault('env', {})['PYTHONHASHSEED'] = str(1 + (seed * 131 + i * 7919) % 4294967290)
     return shards
 
 
